@@ -45,7 +45,9 @@ class Job:
 
     def __init__(self, name, cfiles, entry, enforce=None, replace=(), loop_contracts=True, unwind=None,
                  flags=(), defines=(), timeout=600, kind='contract', backend='sat', prop=None, unit=None,
-                 expect_fail=(), mem_gb=12, info=None, objbits=None, includes=()):
+                 expect_fail=(), mem_gb=12, info=None, objbits=None, includes=(), pre_unwind=None, unwind_rules=()):
+        self.pre_unwind = pre_unwind        # default bound for loops without loop contract, unwound BEFORE contract instrumentation
+        self.unwind_rules = list(unwind_rules)   # [(regex on the loop's source line, bound)]
         self.name = name
         self.cfiles = list(cfiles)
         self.entry = entry
@@ -96,8 +98,10 @@ def classify(pname, desc):
         return 'div_by_zero'
     if 'overflow' in pname:
         return 'overflow'
-    if 'unwind' in pname or 'unwinding' in d:
+    if re.search(r'\.unwind\.\d+$', pname) or 'unwinding assertion' in d:
         return 'unwinding'
+    if 'loop_step_unwinding' in pname:
+        return 'loop_step'
     if 'assertion' in pname:
         return 'assertion'
     return 'other'
@@ -119,6 +123,40 @@ def run_job(job, workdir):
         return res
     binf = a
     cmds = [' '.join(cmd1)]
+    if job.pre_unwind is not None:
+        rc, out, err, t = run(['goto-instrument', '--show-loops', a], 120)
+        loops = re.findall(r'Loop (\S+):\n\s+file (\S+) line (\d+) function (\S+)', out)
+        us = []
+        src_cache = {}
+        for lid, f, line, fn in loops:
+            if fn.startswith('__CPROVER') or f.startswith('<'):
+                continue
+            if f not in src_cache:
+                try:
+                    src_cache[f] = open(f).read().split('\n')
+                except OSError:
+                    src_cache[f] = []
+            text = src_cache[f][int(line) - 1] if int(line) - 1 < len(src_cache[f]) else ''
+            if re.search(r'\bXV_LOOP_\w+', text):
+                continue       # loop under loop contract
+            bound = job.pre_unwind
+            for rx, bnd in job.unwind_rules:
+                if re.search(rx, text):
+                    bound = bnd
+                    break
+            us.append('%s:%d' % (lid, bound))
+        res['pre_unwound'] = us
+        if us:
+            a1 = os.path.join(wd, 'a1.gb')
+            cmdu = ['goto-instrument', '--unwindset', ','.join(us), '--unwinding-assertions', a, a1]
+            rc, out, err, t = run(cmdu, 600)
+            res['time'] += t
+            cmds.append(' '.join(cmdu))
+            if rc != 0:
+                res['log'] = 'goto-instrument --unwindset failed:\n' + (out + err)[-4000:]
+                return res
+            a = a1
+            binf = a1
     if job.enforce or job.replace or job.loop_contracts:
         cmd2 = ['goto-instrument', '--dfcc', job.entry]
         if job.enforce:
@@ -188,9 +226,19 @@ def run_job(job, workdir):
             res['canaries'].append(ob)
             continue
         res['obligations'].append(ob)
+        if st == 'UNKNOWN':
+            res.setdefault('unknown', []).append(ob)
+            continue
         if st != 'SUCCESS':
+            if cls == 'unwinding' and not pn.startswith('__CPROVER_contracts'):
+                res['log'] = 'unwinding assertion failed (%s): the stated loop bound is too small - tool trouble, not a violation' % pn
+                res['status'] = 'trouble'
+                return res
             res['failed'].append(ob)
     res['status'] = 'violated' if res['failed'] else 'ok'
+    if res.get('unknown') and not res['failed']:
+        res['status'] = 'trouble'
+        res['log'] = 'cbmc left %d obligations undecided (UNKNOWN) without reporting a failure' % len(res['unknown'])
     res['binary'] = binf
     res['cbmc_cmd'] = cmd3
     return res
@@ -304,7 +352,7 @@ def write_evidence(prop, tier, seed, results, jobs, wall, extra, assumptions, tr
             continue
         n = len(r['obligations'])
         obligations += n
-        discharged += n - len(r['failed'])
+        discharged += len([o for o in r['obligations'] if o['status'] == 'SUCCESS'])
         for ob in r['obligations']:
             c = per_class.setdefault(ob['class'], [0, 0])
             c[0] += 1
